@@ -361,6 +361,7 @@ func TestCheck(t *testing.T) {
 	if ev.ReplayOnly() {
 		return
 	}
+	t.Run("small-shapes", func(t *testing.T) { enumerate(t, rec) })
 	n := ev.N(4000, 80000)
 	ev.RapidCheck(t, "try-grammar", n, 1, func(rt *rapid.T) {
 		gp := generate(rt, false)
@@ -374,14 +375,177 @@ func TestCheck(t *testing.T) {
 	})
 }
 
+// enumerate: bounded exhaustive enumeration of small shapes: an outer try (catch / finally /
+// both) optionally containing an inner try (same three forms) at one of three positions, one exit
+// statement of every kind at every position, x history of 0/1 completed try x inside a loop or not
+// x the whole thing in the called function or in its caller's callee.
+func enumerate(t *testing.T, rec *ev.Rec) {
+	forms := [][2]bool{{true, false}, {false, true}, {true, true}} // hasCatch, hasFinally
+	exits := []string{"none", "return", "throw", "div0", "break", "continue", "call-throws"}
+	tag := 0
+	lg := func() gen.Stmt {
+		tag++
+		return &gen.ExprStmt{X: &gen.Call{Fn: gen.Id("L"), Args: []gen.Expr{gen.StrLit(fmt.Sprintf("t%d", tag))}}}
+	}
+	mkExit := func(kind string) []gen.Stmt {
+		switch kind {
+		case "return":
+			return []gen.Stmt{&gen.Return{Xs: []gen.Expr{gen.IntLit(77)}}}
+		case "throw":
+			return []gen.Stmt{&gen.Throw{X: gen.StrLit("boom")}}
+		case "div0":
+			return []gen.Stmt{&gen.ExprStmt{X: &gen.Binary{Op: "/", L: gen.IntLit(1), R: gen.Id("zero")}}}
+		case "break":
+			return []gen.Stmt{&gen.Break{}}
+		case "continue":
+			return []gen.Stmt{&gen.Continue{}}
+		case "call-throws":
+			return []gen.Stmt{&gen.ExprStmt{X: &gen.Call{Fn: gen.Id("thrower"), Args: nil}}}
+		}
+		return nil
+	}
+	mkTry := func(form [2]bool, body, catch, fin []gen.Stmt, ident string) *gen.Try {
+		tr := &gen.Try{Body: append([]gen.Stmt{lg()}, body...), HasCatch: form[0], HasFinally: form[1]}
+		if form[0] {
+			tr.CatchIdent = ident
+			tr.Catch = append([]gen.Stmt{&gen.ExprStmt{X: &gen.Call{Fn: gen.Id("L"), Args: []gen.Expr{&gen.Selector{X: gen.Id(ident), Name: "Message"}}}}}, catch...)
+		}
+		if form[1] {
+			tr.Finally = append([]gen.Stmt{lg()}, fin...)
+		}
+		return tr
+	}
+	count, reported := 0, map[string]bool{}
+	shard, shards := rec.Shard, rec.Shards
+	for _, of := range forms {
+		for innerPos := -1; innerPos < 3; innerPos++ { // -1: no inner try; 0 body, 1 catch, 2 finally of the outer
+			if innerPos == 1 && !of[0] || innerPos == 2 && !of[1] {
+				continue
+			}
+			innerForms := forms
+			if innerPos < 0 {
+				innerForms = forms[:1]
+			}
+			for _, inf := range innerForms {
+				for _, ek := range exits {
+					for exitPos := 0; exitPos < 6; exitPos++ { // 0..2 inner body/catch/finally, 3..5 outer body(after inner)/catch/finally
+						if exitPos < 3 && innerPos < 0 {
+							continue
+						}
+						if exitPos == 1 && !inf[0] || exitPos == 2 && !inf[1] || exitPos == 4 && !of[0] || exitPos == 5 && !of[1] {
+							continue
+						}
+						if ek == "none" && exitPos != 3 {
+							continue
+						}
+						for hist := 0; hist < 2; hist++ {
+							for loop := 0; loop < 2; loop++ {
+								if (ek == "break" || ek == "continue") && loop == 0 {
+									continue
+								}
+								// a second exit that makes the catch blocks reachable: the try bodies throw first when the exit sits in a catch
+								count++
+								if shards > 1 && count%shards != shard {
+									continue
+								}
+								tag = 0
+								ex := mkExit(ek)
+								var ib, ic, ifin, ob, oc, ofin []gen.Stmt
+								switch exitPos {
+								case 0:
+									ib = ex
+								case 1:
+									ib = []gen.Stmt{&gen.Throw{X: gen.StrLit("pre")}}
+									ic = ex
+								case 2:
+									ifin = ex
+								case 3:
+									ob = ex
+								case 4:
+									ob = []gen.Stmt{&gen.Throw{X: gen.StrLit("pre")}}
+									oc = ex
+								case 5:
+									ofin = ex
+								}
+								var outer *gen.Try
+								if innerPos >= 0 {
+									inner := mkTry(inf, ib, ic, ifin, "e2")
+									switch innerPos {
+									case 0:
+										outer = mkTry(of, append([]gen.Stmt{inner, lg()}, ob...), oc, ofin, "e1")
+									case 1:
+										// the outer body must throw for the catch (holding the inner try) to run
+										body := ob
+										if exitPos != 3 && exitPos != 4 {
+											body = []gen.Stmt{&gen.Throw{X: gen.StrLit("pre")}}
+										}
+										outer = mkTry(of, body, append([]gen.Stmt{inner, lg()}, oc...), ofin, "e1")
+									default:
+										outer = mkTry(of, ob, oc, append([]gen.Stmt{inner, lg()}, ofin...), "e1")
+									}
+								} else {
+									outer = mkTry(of, ob, oc, ofin, "e1")
+								}
+								fb := []gen.Stmt{
+									&gen.Define{Names: []string{"zero"}, X: gen.IntLit(0)},
+								}
+								if hist == 1 {
+									fb = append(fb, &gen.Try{Body: []gen.Stmt{lg()}, HasFinally: true, Finally: []gen.Stmt{lg()}})
+								}
+								var core gen.Stmt = outer
+								if loop == 1 {
+									core = &gen.For{Init: &gen.Define{Names: []string{"i"}, X: gen.IntLit(0)}, Cond: &gen.Binary{Op: "<", L: gen.Id("i"), R: gen.IntLit(2)},
+										Post: &gen.IncDec{Target: gen.Id("i"), Inc: true}, Body: []gen.Stmt{outer, lg()}}
+								}
+								fb = append(fb, core, lg(), &gen.Return{Xs: []gen.Expr{gen.IntLit(5)}})
+								body := []gen.Stmt{
+									&gen.GlobalDecl{Names: []string{"L"}},
+									&gen.Define{Names: []string{"thrower"}, X: &gen.FuncLit{Body: []gen.Stmt{&gen.Throw{X: gen.StrLit("from-callee")}}}},
+									&gen.Define{Names: []string{"f0"}, X: &gen.FuncLit{Params: []string{"a"}, Body: fb}},
+									&gen.Define{Names: []string{"r"}, X: &gen.Call{Fn: gen.Id("f0"), Args: []gen.Expr{gen.IntLit(1)}}},
+									&gen.ExprStmt{X: &gen.Call{Fn: gen.Id("L"), Args: []gen.Expr{gen.Id("r")}}},
+									&gen.Return{Xs: []gen.Expr{gen.Id("r")}},
+								}
+								gp := &gen.GenProgram{Program: gen.Program{Body: body}, Features: gen.Features{"try": 1, "exit-" + ek: 1}, UsesL: true}
+								if hist == 1 {
+									gp.Features["history"] = 1
+								}
+								if innerPos >= 0 {
+									gp.Features["nested-try"] = 1
+								}
+								f := &tfail{t: t}
+								f.quiet = reported
+								check(f, rec, gp, "enum")
+							}
+						}
+					}
+				}
+			}
+		}
+	}
+	rec.Note("enumerated_small_shapes", count)
+}
+
 type tfail struct {
 	t      *testing.T
 	failed bool
+	quiet  map[string]bool // report each first line once
 }
 
 func (f *tfail) Fatalf(format string, args ...any) {
 	f.failed = true
-	f.t.Errorf(format, args...)
+	msg := fmt.Sprintf(format, args...)
+	if f.quiet != nil {
+		key := strings.SplitN(msg, "\n", 2)[0]
+		if len(key) > 60 {
+			key = key[:60]
+		}
+		if f.quiet[key] {
+			return
+		}
+		f.quiet[key] = true
+	}
+	f.t.Errorf("%s", msg)
 }
 
 func runReplays(t *testing.T, rec *ev.Rec) {
